@@ -319,8 +319,10 @@ Result execute(const Plan &p) {
                 res.counts["distributed_levels_checked"]++;
                 const long nA = L.nA, nC = L.nC;
                 // R is the transpose of P
-                bool rt = L.R.size() == L.P.size(); if (rt) for (Entries::const_iterator it = L.P.begin(); it != L.P.end(); ++it) { Entries::const_iterator q = L.R.find(std::make_pair(it->first.second, it->first.first)); if (q == L.R.end() || q->second != it->second) { rt = false; break; } }
-                if (!rt) res.fail(sig("coarsening-structure", "R=P^T", fmt("level %zu", l)));
+                bool rt = L.R.size() == L.P.size(); if (rt) for (Entries::const_iterator it = L.P.begin(); it != L.P.end(); ++it) { Entries::const_iterator q = L.R.find(std::make_pair(it->first.second, it->first.first)); if (q == L.R.end() || (q->second != it->second && !(q->second != q->second && it->second != it->second))) { rt = false; break; } }
+                if (!rt) { std::string why = fmt("level %zu: %zu entries in P, %zu in R", l, L.P.size(), L.R.size());
+                    for (Entries::const_iterator it = L.P.begin(); it != L.P.end(); ++it) { Entries::const_iterator q = L.R.find(std::make_pair(it->first.second, it->first.first)); if (q == L.R.end() || (q->second != it->second && !(q->second != q->second && it->second != it->second))) { why += fmt("; P(%ld,%ld) = %.17g, R(%ld,%ld) %s", it->first.first, it->first.second, it->second, it->first.second, it->first.first, q == L.R.end() ? "is not stored" : fmt("= %.17g", q->second).c_str()); break; } }
+                    res.fail(sig("coarsening-structure", "R=P^T", why)); }
                 // A_c = R*A*P (divided by the float over-interpolation factor for plain aggregation)
                 std::vector<long double> AP((size_t)nA * nC, 0.0L), AbsAP((size_t)nA * nC, 0.0L);
                 for (Entries::const_iterator a = L.A.begin(); a != L.A.end(); ++a) for (Entries::const_iterator q = L.P.lower_bound(std::make_pair(a->first.second, -1L)); q != L.P.end() && q->first.first == a->first.second; ++q) { AP[(size_t)a->first.first * nC + q->first.second] += (long double)a->second * q->second; AbsAP[(size_t)a->first.first * nC + q->first.second] += std::fabs((long double)a->second * q->second); }
